@@ -188,7 +188,38 @@ func linExplains(blobs []LinBlob, ops []LinOp, order []int, have uint) (bool, ui
 // observed final set haveEnd) are linearizable.
 func LinCheck(blobs []LinBlob, ops []LinOp, have0, haveEnd uint) {
 	for i := range ops {
-		vrt.Assert(ops[i].Err == nil, "no operation of a healthy store fails")
+		f := &ops[i]
+		if f.Err == nil {
+			continue
+		}
+		vrt.Note(fmt.Sprintf("failed: op%d kind=%d blob=%d err=%v", i, f.Kind, f.Blob, f.Err))
+		if f.Kind == LinReceive {
+			for j := range ops {
+				r := &ops[j]
+				if r.Kind == LinRemove && r.Blob == f.Blob && !(r.End < f.Start || f.End < r.Start) {
+					vrt.Assert(false, "a receive fails because the same blob is removed concurrently")
+					return
+				}
+			}
+		}
+		vrt.Assert(false, "no operation of a healthy store fails")
+		return
+	}
+	// a fetch that returns bytes other than the blob's is never explainable; name the situation
+	for i := range ops {
+		f := &ops[i]
+		if f.Kind != LinFetch || !f.Found || f.Data == blobs[f.Blob].Data {
+			continue
+		}
+		for j := range ops {
+			r := &ops[j]
+			if r.Kind == LinRemove && r.Blob == f.Blob && !(r.End < f.Start || f.End < r.Start) {
+				vrt.Assert(false, "a fetch returned bytes that are not the blob's while the blob was being removed")
+				return
+			}
+		}
+		vrt.Assert(false, "a fetch returned bytes that are not the blob's")
+		return
 	}
 	n := len(ops)
 	perm := make([]int, n)
@@ -233,16 +264,29 @@ func LinCheck(blobs []LinBlob, ops []LinOp, have0, haveEnd uint) {
 	vrt.Assert(ok, "the observed results are explained by a sequential order of the calls that respects real time")
 }
 
-// LinFinal reads the final contents of st (sequentially, after all clients returned).
+// LinFinal reads the final contents of st (sequentially, after all clients returned): what is
+// stat-able must also be fetched back byte for byte.
 func LinFinal(st LinStorage, blobs []LinBlob) uint {
 	var have uint
 	for i := range blobs {
 		i := i
 		err := st.StatBlobs(context.Background(), []blob.Ref{blobs[i].Ref}, func(sb blob.SizedRef) error {
 			have |= 1 << uint(i)
+			vrt.Assert(int(sb.Size) == len(blobs[i].Data), "afterwards every blob is reported with its size")
 			return nil
 		})
 		vrt.Assert(err == nil, "final stat succeeds")
+		rc, _, err := st.Fetch(context.Background(), blobs[i].Ref)
+		if have&(1<<uint(i)) != 0 {
+			vrt.Assert(err == nil, "afterwards every stored blob can be fetched")
+			if err == nil {
+				data, rerr := io.ReadAll(rc)
+				rc.Close()
+				vrt.Assert(rerr == nil && string(data) == blobs[i].Data, "afterwards every stored blob is fetched back byte for byte")
+			}
+		} else {
+			vrt.Assert(err == os.ErrNotExist, "afterwards an absent blob is reported as not existing")
+		}
 	}
 	return have
 }
